@@ -1462,6 +1462,12 @@ namespace cds { namespace container {
                     return update_flags::failed;
                 }
 
+                if ( !pNode->is_valued( memory_model::memory_order_relaxed ) && !(nFlags & update_flags::allow_insert)) {
+                    // routing node: the key is not in the map and insertion is not allowed
+                    m_stat.onInsertFailed();
+                    return update_flags::failed;
+                }
+
                 pOld = pNode->value( memory_model::memory_order_relaxed );
                 bInserted = pOld == nullptr;
                 mapped_type pVal = funcUpdate( pNode );
